@@ -234,33 +234,53 @@ func execute(r *ev.Run, cs *caseSpec, run func() outcome) {
 // recordSamples executes six fixed cases (first, middle and last document of each kind, first
 // single update) on the main goroutine and writes them out as the evidence samples.
 func recordSamples(r *ev.Run, npmDocs []*npmDoc, pomDocs []*pomDoc) {
-	pick := func(n int) []int {
-		if n == 0 {
-			return nil
+	keys := func(o outcome) []string {
+		ks := []string{}
+		for _, d := range o.discs {
+			ks = append(ks, d.Key)
 		}
-		return []int{0, n / 2, n - 1}
+		return ks
 	}
-	for _, i := range pick(len(npmDocs)) {
-		files := map[string]string{"package.json": npmDocs[i].render()}
-		reqs, err := npmReadReqs(files)
-		if err != nil || len(reqs) == 0 {
-			continue
+	verdict := func(o outcome) string {
+		switch {
+		case len(o.discs) > 0:
+			return "discrepancy"
+		case o.writeErr != "":
+			return "Write returned an error (accepted)"
 		}
-		ka, _ := reqs[0].Type.GetAttr(dep.KnownAs)
-		cs := &caseSpec{Kind: "npm", Files: files, Main: "package.json", Family: npmDocs[i].Family, Updates: []updSpec{{Name: reqs[0].Name, KnownAs: ka, To: npmTargets[0]}}}
-		o := runCase(cs)
-		r.Sample(map[string]any{"kind": "npm", "family": cs.Family, "input": files["package.json"], "updates": cs.Updates, "discrepancies": len(o.discs), "write_error": o.writeErr})
+		return "output = input with exactly the requested requirement substituted; re-read agrees"
 	}
-	for _, i := range pick(len(pomDocs)) {
-		files, chain := pomDocs[i].Opt.render()
-		m, err := buildPomModel(files, chain)
-		if err != nil || len(m.deps) == 0 {
-			continue
+	n := 0
+	for _, i := range []int{0, len(npmDocs) / 2, len(npmDocs) - 1} {
+		for ; i >= 0 && i < len(npmDocs); i++ { // first document at or after i that has a requirement
+			files := map[string]string{"package.json": npmDocs[i].render()}
+			reqs, err := npmReadReqs(files)
+			if err != nil || len(reqs) == 0 {
+				continue
+			}
+			ka, _ := reqs[0].Type.GetAttr(dep.KnownAs)
+			cs := &caseSpec{Kind: "npm", Files: files, Main: "package.json", Family: npmDocs[i].Family, Updates: []updSpec{{Name: reqs[0].Name, KnownAs: ka, To: npmTargets[0]}}}
+			o := runCase(cs)
+			r.Sample(map[string]any{"kind": "npm", "family": cs.Family, "input": files["package.json"], "updates": cs.Updates, "verdict": verdict(o), "discrepancy_keys": keys(o)})
+			n++
+			break
 		}
-		cs := &caseSpec{Kind: "pom", Files: files, Main: chain[0], Chain: chain, Family: pomDocs[i].Family, Updates: []updSpec{m.deps[len(m.deps)-1].upd(pomTargets[0])}}
-		o := runCase(cs)
-		r.Sample(map[string]any{"kind": "pom", "family": cs.Family, "options": fmt.Sprintf("%+v", pomDocs[i].Opt), "files": chain, "updates": cs.Updates, "discrepancies": len(o.discs), "write_error": o.writeErr})
 	}
+	for _, i := range []int{0, len(pomDocs) / 2, len(pomDocs) - 1} {
+		for ; i >= 0 && i < len(pomDocs); i++ {
+			files, chain := pomDocs[i].Opt.render()
+			m, err := buildPomModel(files, chain)
+			if err != nil || len(m.deps) == 0 {
+				continue
+			}
+			cs := &caseSpec{Kind: "pom", Files: files, Main: chain[0], Chain: chain, Family: pomDocs[i].Family, Updates: []updSpec{m.deps[len(m.deps)-1].upd(pomTargets[0])}}
+			o := runCase(cs)
+			r.Sample(map[string]any{"kind": "pom", "family": cs.Family, "options": fmt.Sprintf("%+v", pomDocs[i].Opt), "files": chain, "input": files[chain[0]], "updates": cs.Updates, "verdict": verdict(o), "discrepancy_keys": keys(o)})
+			n++
+			break
+		}
+	}
+	_ = n
 }
 
 func fmtUpdates(us []updSpec) string {
